@@ -60,10 +60,16 @@ def payload(k, n, newline=False, uni=False):
     s = (tag + ':' + 'abcdefghijklmnopqrstuvwxyz'[k % 26] * n)[:n] if n > len(tag) + 1 else 'abcdefghijklmnopqrstuvwxyz'[k % 26] * n
     if uni and n > 2:
         s = s[:-1] + 'é'
+    # newline: 1 = trailing only, 2 = trailing + one interior, 3 = one interior only (the chunk ends inside a
+    # line, as a pipe read does), 4 = leading newline
     if newline and n > 1:
-        s = s[:-1] + '\n'
-        if n > 4:
-            s = s[:n // 2] + '\n' + s[n // 2 + 1:]       # an interior line break: multi-line write
+        mode = newline if isinstance(newline, int) and not isinstance(newline, bool) else 2
+        if mode in (1, 2):
+            s = s[:-1] + '\n'
+        if mode in (2, 3) and n > 4:
+            s = s[:n // 2] + '\n' + s[n // 2 + 1:]
+        if mode == 4:
+            s = '\n' + s[1:]
     return s
 
 
@@ -198,7 +204,7 @@ def run_case(spec):
         args['pre_backs'] = {i: 'B%d' % i * rnd.randint(1, 4) for i in idxs}
     if mode == 'time':
         args['time_format'] = '%Y-%m'
-        args['newline'] = rnd.random() < .7
+        args['newline'] = rnd.choice([0, 1, 2, 3, 3, 4])
     if mode == 'norot':
         args['mb'] = 0
         args['bc'] = rnd.choice([0, 0, 3])
